@@ -10,9 +10,10 @@ IMPORTS = ["SodiumModel.Properties.C06"] if THEOREMS else ["SodiumModel.Spec.Ed2
 TABLES = ['sc25519_L_eq', 'dom2prefix_eq']      # Tie B: kernel-checked `table regenerated from the source = model table`
 # the ge25519 group-operation code (point formulas, signed-window recoding, constant-time table lookups, the three scalar multiplications, base tables) in the C's structure
 THEOREMS = THEOREMS + vcore.theorems_in("SodiumModel/Properties/C06Ge.lean", ['isCached_sc', 'isPrecomp_sc', 'extEq_of_sc', 'p1p1_to_p3_extended', 'p1p1_to_p2_eq', 'p3_to_cached_correct', 'add_cached_correct', 'sub_cached_correct', 'madd_correct', 'msub_correct', 'p2_dbl_correct', 'p3_dbl_correct', 'p2_dbl_negated', 'add_cached_coordinatewise', 'p3_add_correct', 'p3_sub_correct', 'neutral_elements', 'recode_correct', 'recode_digits_in_range', 'recode_top_digit_out_of_range', 'scalarmult_drops_top_digit', 'slide_vartime_correct', 'slide_vartime_loses_carry', 'cmov8_cached_lookup', 'cmov8_lookup', 'cmov8_cached_multiple', 'cmov8_cached_out_of_range', 'cmov8_multiple', 'eff_sum_eq', 'scalarmult_abstract', 'scalarmult_abstract_general', 'scalarmult_base_abstract', 'double_scalarmult_abstract', 'double_scalarmult_abstract_exact', 'scalarmult_spec', 'scalarmult_base_spec', 'double_scalarmult_spec', 'base_tables_correct', 'scalarmult_base_correct', 'double_scalarmult_correct', 'mul_l_abstract', 'is_on_main_subgroup_spec', 'fe25519_invert_correct', 'fe25519_pow22523_correct', 'has_small_order_correct', 'is_on_curve_correct', 'is_on_curve_weaker_than_spec'], "Sodium.C06Ge")
-IMPORTS = IMPORTS + ["SodiumModel.Properties.C06Ge", "SodiumModel.Properties.C06Full", "SodiumModel.Properties.C06Full2"]
+IMPORTS = IMPORTS + ["SodiumModel.Properties.C06Ge", "SodiumModel.Properties.C06Full", "SodiumModel.Properties.C06Full2", "SodiumModel.Properties.C06Full3"]
 THEOREMS = THEOREMS + vcore.theorems_in("SodiumModel/Properties/C06Full.lean", ['denominator_ne_zero', 'frombytes_candidate_correct', 'rfc_candidate_correct', 'negate_candidate_is_rfc', 'root_formulas_agree', 'frombytes_sign_selection', 'frombytes_negate_sign_selection', 'slide_vartime_exact', 'slide_vartime_exact_canonical', 'assembled_primitives_correct', 'verifier_hash', 'verify_assembled', 'verify_returns_zero_iff'], "Sodium.C06Full")
 THEOREMS = THEOREMS + vcore.theorems_in("SodiumModel/Properties/C06Full2.lean", ['frombytes_is_lax_decode', 'frombytes_negate_is_lax_decode_neg', 'frombytes_closed_form', 'frombytes_accepts_x0_with_sign_bit', 'frombytes_accepts_noncanonical_y', 'p3_tobytes_is_encode', 'tobytes_is_encode', 'p3_tobytes_affine', 'decode_encode_id', 'frombytes_p3_tobytes', 'seed_keypair_is_rfc', 'detached_is_rfc', 'detached_ph_is_rfc', 'detached_any_pk', 'spec_scalarMult_rep', 'faithful_excludes_trivial'], "Sodium.C06Full2")
+THEOREMS = THEOREMS + vcore.theorems_in("SodiumModel/Properties/C06Full3.lean", ['sign_then_verify', 'keypair_sign_verify', 'final_test_passes_on_honest', 'check_coordinates', 'true_difference', 'has_small_order_field', 'final_test_exact', 'final_test_group', 'accept_implies'], "Sodium.C06Full3")
 FINGERPRINTS = "C06"     # Tie B: pinned source text of the transcribed ge25519 functions (tools/fingerprint.py)
 TIEB_SC = True     # Tie B: the sc25519 limb model is re-transcribed from the current source and the proofs re-checked against it
 RULE = ("all message lengths 0..300: seeded key pair, detached / combined / multi-part (pre-hashed) signing, verification in every form (the harness requires detached verify and "
